@@ -69,6 +69,10 @@ func c15MemberStates(u *universe) []c15Member {
 			}
 		}
 	}
+	// a member that holds the bytes of the image mi under another media type, tagged t (populated
+	// independently of a member that holds mi itself: same digest, descriptors differing in media type)
+	out = append(out, c15Member{Ops: []Op{{K: "PushManifest", Repo: "r", M: 8, Tag: "t"}}})
+	out = append(out, c15Member{Ops: []Op{{K: "PushBlob", Repo: "r", B: 1}, {K: "PushBlob", Repo: "r", B: 2}, {K: "PushManifest", Repo: "r", M: 1, Tag: "t"}}})
 	// a member that knows another repository only
 	out = append(out, c15Member{Ops: []Op{{K: "PushBlob", Repo: "s", B: 1}, {K: "PushManifest", Repo: "s", M: 0, Tag: "u"}}})
 	return out
@@ -130,6 +134,19 @@ func c15CheckPair(r *vcore.Run, u *universe, states []c15Member, i0, i1 int) {
 	m1, mod1 := c15Build(u, states[i1])
 	un, conflicts := c15Union(mod0, mod1)
 	queries := sweepQueries(u, []string{"r", "s"})
+	// the same manifest held by both members under different media types: which member's descriptor
+	// comes back is unspecified (the statement speaks of digests); such answers are read as the union
+	// model's media type. What stays required: the read succeeds, with the right digest and bytes.
+	eitherMT := map[string][2]string{}
+	for name, r0 := range mod0.Repos {
+		if r1 := mod1.Repos[name]; r1 != nil {
+			for d, x := range r0.Mans {
+				if y := r1.Mans[d]; y != nil && y.MT != x.MT {
+					eitherMT[name+"|"+string(d)] = [2]string{x.MT, y.MT}
+				}
+			}
+		}
+	}
 	var texts [2]string
 	for pi, pol := range []ociunify.ReadPolicy{ociunify.ReadSequential, ociunify.ReadConcurrent} {
 		pname := []string{"sequential", "concurrent"}[pi]
@@ -140,6 +157,9 @@ func c15CheckPair(r *vcore.Run, u *universe, states []c15Member, i0, i1 int) {
 		if r.Guard("pair", "C15/read/"+pname, c, func() {
 			for _, q := range queries {
 				o := runQuery(context.Background(), reg, q)
+				if mts, ok := eitherMT[q.Repo+"|"+string(o.Desc.Digest)]; ok && o.OK && (o.Desc.MediaType == mts[0] || o.Desc.MediaType == mts[1]) {
+					o.Desc.MediaType = mts[0]
+				}
 				obs = append(obs, o)
 				if (q.K == "GetTag" || q.K == "ResolveTag") && conflicts[q.Repo+"/"+q.Tag] {
 					if o.OK {
@@ -256,7 +276,9 @@ func newUnifySysOrdered(r *vcore.Run, u *universe, cfg alphabetConfig, pol ociun
 	var i0, i1 ociregistry.Interface = m0, m1
 	if firstMember == -2 {
 		// members whose upload IDs change with every write (see genIDMember)
-		i0, i1 = newGenIDMember(m0), newGenIDMember(m1)
+		g0 := newGenIDMember(m0)
+		g0.pad = "~state=" + strings.Repeat("0123456789abcdef", 19) // member 0's IDs are 300+ bytes long
+		i0, i1 = g0, newGenIDMember(m1)
 	}
 	var gate *orderGate
 	if firstMember >= 0 {
